@@ -40,14 +40,8 @@ def size_class(tags, mode, st, p):
         return c
     form = tags.get("form", "")
     if st[0] == "mn":
-        if st[1] == "PUSH" and "imm" in form:
-            return "C03-push-imm-size"
         if st[1] == "IMUL" and "imm" in form:
             return "C03-imul-imm-size"
-        if st[1] in ("PUSH", "POP") and st[2][0][1][1] in (("id", "FS"), ("id", "GS")):
-            return "C03-two-byte-opcode-size"
-        if st[1] == "MOV" and "creg" in form and mode == 32:
-            return "C03-two-byte-opcode-size"
         if st[1] in ("INC", "DEC", "NEG", "ADC", "SBB", "MUL", "DIV", "IDIV"):
             return "C03-unimplemented-sized"
     return None
